@@ -33,7 +33,7 @@ def fails_total(case):
 
 def report(ctx, case, res, stage, seen):
     """One violation per distinct failure signature (shrunk when it is a panic)."""
-    sig = res.describe()[:80]
+    sig = res.describe()[:80] + (" @" + stage if "regression of" in stage else "")
     if sig in seen or len(ctx.violations) >= MAX_VIOLATIONS:
         seen[sig] = seen.get(sig, 0) + 1
         return
